@@ -405,7 +405,12 @@ type Pair struct {
 	Server   *dtls.Conn
 	CHs, SHs HsResult
 	cancel   []context.CancelFunc
-	CName    string
+	// CancelOnReturn: each side cancels the context it passed to HandshakeContext as soon as that
+	// call has returned (the usual `defer cancel()`): the connection must keep working - also keep
+	// answering the peer's retransmissions - without it
+	CancelOnReturn bool
+	ccancel        context.CancelFunc
+	CName          string
 	SName    string
 	Env      *Env
 }
@@ -454,16 +459,21 @@ func NewPairNamed(s *Sim, n *SimNet, cs, ss EpSpec, env *Env, cname, sname strin
 
 // StartHandshakes launches HandshakeContext on both sides; timeout 0 = no deadline.
 func (p *Pair) StartHandshakes(timeout time.Duration) {
-	mk := func() context.Context {
+	mk := func() (context.Context, context.CancelFunc) {
 		if timeout <= 0 {
-			return context.Background()
+			ctx, cancel := context.WithCancel(context.Background())
+			p.cancel = append(p.cancel, cancel)
+
+			return ctx, cancel
 		}
 		ctx, cancel := context.WithTimeout(context.Background(), p.S.Uniq(timeout))
 		p.cancel = append(p.cancel, cancel)
 
-		return ctx
+		return ctx, cancel
 	}
-	cctx, sctx := mk(), mk()
+	cctx, ccancel := mk()
+	sctx, scancel := mk()
+	p.ccancel = ccancel
 	// The two endpoints must not arm their first retransmission timers at the
 	// same virtual instant: the order in which the runtime fires timers that
 	// tie depends on process history, which would break exact replay.
@@ -472,6 +482,9 @@ func (p *Pair) StartHandshakes(timeout time.Duration) {
 	p.S.Go(p.SName+"-handshake", func() {
 		p.S.Record("op-call", p.SName, "HandshakeContext", nil)
 		err := p.Server.HandshakeContext(sctx)
+		if p.CancelOnReturn {
+			scancel()
+		}
 		seq := p.S.Record("op-ret", p.SName, fmt.Sprintf("HandshakeContext err=%v", err), nil)
 		p.SHs = HsResult{Done: true, Err: err, At: p.S.Now(), Seq: seq}
 		if p.OnHsDone != nil {
@@ -484,6 +497,9 @@ func (p *Pair) startClientHandshake(cctx context.Context) {
 	p.S.Go("c-handshake", func() {
 		p.S.Record("op-call", p.CName, "HandshakeContext", nil)
 		err := p.Client.HandshakeContext(cctx)
+		if p.CancelOnReturn && p.ccancel != nil {
+			p.ccancel()
+		}
 		seq := p.S.Record("op-ret", p.CName, fmt.Sprintf("HandshakeContext err=%v", err), nil)
 		p.CHs = HsResult{Done: true, Err: err, At: p.S.Now(), Seq: seq}
 		if p.OnHsDone != nil {
